@@ -24,6 +24,7 @@ def load():
     _STATE['imported'] = True
     # Exceptions in executor threads are an observation, not console noise.
     threading.excepthook = _excepthook
+    sys.unraisablehook = _unraisablehook
   import openhtf  # pylint: disable=g-import-not-at-top
   return openhtf
 
@@ -36,6 +37,13 @@ def _excepthook(args):
     return
   THREAD_EXCEPTIONS.append((args.thread.name if args.thread else '?', args.exc_type.__name__, str(args.exc_value),
                             _innermost_openhtf_frame(args.exc_traceback)))
+
+
+def _unraisablehook(unraisable):
+  # An async ThreadTerminationError delivered inside a GC/weakref callback of a killed phase thread: noise.
+  if unraisable.exc_type is not None and unraisable.exc_type.__name__ == 'ThreadTerminationError':
+    return
+  sys.__unraisablehook__(unraisable)
 
 
 def _innermost_openhtf_frame(tb):
